@@ -273,6 +273,7 @@ inline int runCampaign(const HarnessArgs& a, const std::string& name, const GenF
     const std::string cur  = a.out + "/cur_" + std::to_string(a.worker) + ".case";
     const std::string fail = a.out + "/fail_" + std::to_string(a.worker) + ".case";
     std::remove(fail.c_str());
+    auto lastFlush = std::chrono::steady_clock::now();
     bool ok = rc::check(name, [&] {
         KV c = gen();
         c.save(cur);
@@ -284,6 +285,11 @@ inline int runCampaign(const HarnessArgs& a, const std::string& name, const GenF
             o.fail("unexpected_exception", std::string("unexpected exception: ") + e.what());
         }
         st.record(c, o);
+        // periodic flush: a worker that is stopped at its wall-clock budget still reports what it covered
+        if (std::chrono::steady_clock::now() - lastFlush > std::chrono::seconds(15)) {
+            st.flush();
+            lastFlush = std::chrono::steady_clock::now();
+        }
         if (!o.ok) {
             KV f = c;
             f.putS("fail_oracle", o.oracle);
